@@ -1069,7 +1069,7 @@ def direction_b_ttcmap(ck, dev, ppool):
     rejected = 0
     while todo:
         with open(tf, "w") as f:
-            json.dump([{k: v for k, v in t.items() if k not in ("origin", "nchars")} for t in todo], f)
+            json.dump([{k: v for k, v in t.items() if k not in ("origin", "nchars", "differ")} for t in todo], f)
         res = run_tlc(spec, cfg, workers=1, env={"TRACE_FILE": tf}, timeout=3000, heap="6g")
         ck.add_tlc(res, "trace validation of %d embedded TrueType programs of the samples" % len(todo))
         if res.ok:
@@ -1091,6 +1091,10 @@ def direction_b_ttcmap(ck, dev, ppool):
             break
     for tr in traces:
         ck.case(len(tr["obs"]) + len(tr["inv"]) + 1, ("TB", tr["origin"]) if tr["obs"] else None)
+        if tr["differ"] and "F4RangeBase" in dev:
+            report(ck, "dev:F4RangeBase", "embedded TrueType program %s: %d of %d characters are attached to another glyph than the "
+                   "OpenType reading of its cmap gives" % (tr["origin"], tr["differ"], tr["nchars"]),
+                   {"kind": "trace", "origin": tr["origin"]})
     ck.traces += len(traces) - rejected
     ck.extra["sample_truetype_programs_traced"] = len(traces)
     ck.extra["sample_truetype_programs_with_unicode_cmap"] = sum(1 for t in traces if t["result"] == "ok")
